@@ -130,3 +130,19 @@ package bsupport
 //@   loop 1: invariant -1 <= rangeindex && ncalls("base.LogChunkMaker.FlushBuffer") == old(ncalls("base.LogChunkMaker.FlushBuffer")) + rangeindex + 1
 //@   loop 1: step[one-flush-per-output-every-chunk-counted] ncalls("base.LogChunkMaker.FlushBuffer") == prev(ncalls("base.LogChunkMaker.FlushBuffer")) + 1
 //@           && ncalls("base.LogProcessCounterSet.CountChunk") - prev(ncalls("base.LogProcessCounterSet.CountChunk")) == nchunks - prev(nchunks)
+
+// ==== the parsing stage of a connection (C05): records leave it in the order their lines arrived. A parsed record is put
+// behind everything the connection has batched and either stays there, or the whole batch - earlier records first, the new one
+// last - is handed to the orchestrator's sink in one piece; a record never overtakes the batch. Functional-only unit.
+//@ func (sess *logParsingReceiverSink) Accept(lines []byte)
+//@   property C05
+//@   flag nosafety noinfer
+//@   requires sess != nil && sess.parser != nil && sess.outputSink != nil
+//@   modifies everything
+//@   ensures[a-rejected-line-changes-nothing] sysloginput.lastparsed == nil ==> ncalls("base.BufferReceiverSink.Accept") == old(ncalls("base.BufferReceiverSink.Accept")) && len(sess.bufferedLogs) == old(len(sess.bufferedLogs))
+//@   ensures[records-leave-the-connection-in-arrival-order] sysloginput.lastparsed != nil ==>
+//@        (ncalls("base.BufferReceiverSink.Accept") == old(ncalls("base.BufferReceiverSink.Accept")) && len(sess.bufferedLogs) == old(len(sess.bufferedLogs)) + 1 && sess.bufferedLogs[old(len(sess.bufferedLogs))] == sysloginput.lastparsed
+//@           && forall i int :: 0 <= i && i < old(len(sess.bufferedLogs)) ==> sess.bufferedLogs[i] == old(sess.bufferedLogs[i]))
+//@     || (ncalls("base.BufferReceiverSink.Accept") == old(ncalls("base.BufferReceiverSink.Accept")) + 1 && len(run.lastbatch) == old(len(sess.bufferedLogs)) + 1 && run.lastbatch[old(len(sess.bufferedLogs))] == sysloginput.lastparsed
+//@           && len(sess.bufferedLogs) == 0 && forall i int :: 0 <= i && i < old(len(sess.bufferedLogs)) ==> run.lastbatch[i] == old(sess.bufferedLogs[i]))
+
